@@ -178,3 +178,38 @@ Definition dup_problem (ts : list (string * list (N * string))) : option (string
   | Some nt => match dup_key (snd nt) with Some k => Some (fst nt, k) | None => None end
   | None => None
   end.
+
+(* ---- third round: tables recorded by running the decoder ("probe") ---- *)
+(* A table whose source is "ast" must EQUAL the specification table.  A table
+   whose source is "probe" (the translator found no dispatch pattern and ran the
+   real decoder on known minimal payloads instead) must be INCLUDED in it: every
+   probed id has the specified variant; the ids it does not cover are
+   `unprobed` (reported, not silently dropped). *)
+Definition source_of (srcs : list (string * string)) (name : string) : string :=
+  match find (fun ns => String.eqb (fst ns) name) srcs with Some ns => snd ns | None => "ast"%string end.
+Fixpoint subset_diff (fam : string) (g s : list (N * string)) : option (string * N) :=
+  match g with
+  | [] => None
+  | (k, v) :: g' =>
+      match find (fun kv => (fst kv =? k)%N) s with
+      | Some kv => if String.eqb (snd kv) v then subset_diff fam g' s else Some (fam, k)
+      | None => Some (fam, k)
+      end
+  end.
+Fixpoint tables_diff_src (srcs : list (string * string)) (g s : list (string * list (N * string))) : option (string * N) :=
+  match g, s with
+  | [], [] => None
+  | (n1, t1) :: g', (n2, t2) :: s' =>
+      if String.eqb n1 n2 then
+        match (if String.eqb (source_of srcs n1) "probe" then subset_diff n1 t1 t2 else first_diff n1 t1 t2) with
+        | Some d => Some d
+        | None => tables_diff_src srcs g' s'
+        end
+      else Some (n2, 0%N)
+  | (n, _) :: _, [] | [], (n, _) :: _ => Some (n, 0%N)
+  end.
+Definition unprobed (srcs : list (string * string)) (g s : list (string * list (N * string))) : list (string * list N) :=
+  flat_map (fun nt => if String.eqb (source_of srcs (fst nt)) "probe"
+                      then [(fst nt, map fst (filter (fun kv => negb (existsb (fun e => (fst e =? fst kv)%N) (snd nt)))
+                                                         (table_of s (fst nt))))]
+                      else []) g.
